@@ -1600,6 +1600,10 @@ class Normalizer:
                 d = g.default_of(p)
                 if d is None:
                     raise CannotInline(f"parameter {p} unbound")
+                if not all(isinstance(x, (ast.Constant, ast.Name, ast.Attribute, ast.UnaryOp, ast.unaryop, ast.Load, ast.Tuple, ast.BinOp, ast.operator)) for x in ast.walk(d)):
+                    # a list / dict / set / call default is evaluated ONCE, when the function is defined, and shared by every call that
+                    # omits the argument: writing it out at the call site would give each call a fresh object and hide that sharing
+                    raise CannotInline(f"default of {p} is an object shared between calls")
                 bound[p] = copy.deepcopy(d)
                 defaults_in_callee_scope.add(p)
         # ---- names
